@@ -1,0 +1,9 @@
+//go:build !verif
+
+package corebgp
+
+// Verification hooks compile to nothing without -tags verif.
+
+func verifEvent(kind string, args ...any) {}
+
+func verifPoint(name string) {}
